@@ -6,8 +6,11 @@
    split, re.match, str.format and startswith compute.
    That the tasks a run processes are the dependency closure of the selected list is C02 (dispatcher);
    here: which list is selected, what --single does to the task table, which task_dep the table holds.
-   C12_serial_order (order of first events in the serial trace) is NOT proved: too costly over
-   Model/Dispatch.v within this round; the start order is checked on real runs by harness/c12.py only. *)
+   Last part of this file (Proofs/OrderP.v, over Model/Dispatch.v + Runner.v, static table): the tasks a serial
+   run looks at are inside the dependency closure of the selected list (C12_nothing_outside_closure_serial),
+   and the selected tasks are examined in the order given except where dependencies require otherwise
+   (C12_serial_order: over an acyclic table; false over a cyclic one, C12_serial_order_needs_acyclic).
+   The same order on real runs (delayed tasks included) is checked by harness/c12.py. *)
 From DoitV Require Import Base Select SelectP.
 Open Scope N_scope.
 
@@ -355,3 +358,147 @@ Proof.
     + apply filter_list_ok. vm_compute. reflexivity.
     + vm_compute. reflexivity.
 Qed.
+
+(* ================================================================== the run: closure and order
+   Model/Dispatch.v (TaskDispatcher) + Model/Runner.v (serial Runner) over a static task table;
+   run_serial tasks wake_rank calc_rank continue_ always fuel selection = (trace, exit code); every fuel =
+   every prefix of every run.  Proofs/OrderP.v.
+     eff_dep tasks t y    y is an effective dependency of t: task_dep (explicit, wild-card, implicit through
+                          targets, result_dep, loader), calc_dep, setup (explicit, getargs), and whatever the
+                          calc_dep tasks of t return (transitively)               (Proofs/RunnerP.v)
+     reach tasks x y      one or more eff_dep steps from x to y                    (Proofs/AncP.v)
+     needed tasks roots x x is one of roots or reachable from one of them
+     ev_task e            the task an event is about (get_status, skip, execute, success/failure, save/remove of
+                          the DB record, teardown, interrupt); None for close / the two cycle diagnostics
+     all_done pre tr      every task of pre has EGetStatus (handed to the runner) AND a final report in tr *)
+From DoitV Require Import Dispatch Runner RunnerP AncP HoldP OrderP.
+
+(* upper half of "exactly the closure": whatever the table (cyclic or not), the flags, the set-order
+   oracles, the fuel: every event of the trace is about a selected task or a task reachable from one
+   through effective dependencies -- nothing outside the closure is examined, executed, reported, saved,
+   removed or torn down ... *)
+Theorem C12_nothing_outside_closure_serial :
+  forall tasks wake_rank calc_rank continue_ always fuel selection e k,
+  In e (fst (run_serial tasks wake_rank calc_rank continue_ always fuel selection)) -> ev_task e = Some k ->
+  needed tasks selection k.
+Proof. exact serial_closure_events. Qed.
+Print Assumptions C12_nothing_outside_closure_serial.
+
+(* ... and no ExecNode is ever created for a task outside it *)
+Theorem C12_no_node_outside_closure_serial :
+  forall tasks wake_rank calc_rank continue_ always fuel selection r' s,
+  serial tasks wake_rank calc_rank continue_ always fuel (r_init selection) None = (r', s) ->
+  forall x, d_nodes (r_d r') x <> None -> needed tasks selection x.
+Proof. exact serial_closure_nodes. Qed.
+Print Assumptions C12_no_node_outside_closure_serial.
+
+(* the order.  selection = pre ++ post, table without a cycle of effective dependencies: a task b that is
+   not needed by pre (b is not in pre and no task of pre reaches it) is not touched -- no event about b, in
+   particular not its first one, reporter.get_status -- before EVERY task of pre was handed to the runner
+   and got its final report.  So the selected tasks are started in the order given, except that a task
+   needed by an earlier one (or by the task itself) comes first.  Any flags, oracles, fuel. *)
+Theorem C12_serial_order :
+  forall tasks wake_rank calc_rank continue_ always,
+  (forall k, ~ reach tasks k k) ->
+  forall fuel pre post b e tpre tpost,
+  ev_task e = Some b -> ~ needed tasks pre b ->
+  fst (run_serial tasks wake_rank calc_rank continue_ always fuel (pre ++ post)) = tpre ++ e :: tpost ->
+  all_done pre tpre.
+Proof. exact serial_selection_order. Qed.
+Print Assumptions C12_serial_order.
+
+(* for two selected tasks: a listed before b, b needed neither by a nor by a task listed before a *)
+Theorem C12_serial_order_pair :
+  forall tasks wake_rank calc_rank continue_ always,
+  (forall k, ~ reach tasks k k) ->
+  forall fuel l1 a l2 b l3 e tpre tpost,
+  ev_task e = Some b -> ~ needed tasks (l1 ++ [a]) b ->
+  fst (run_serial tasks wake_rank calc_rank continue_ always fuel (l1 ++ a :: l2 ++ b :: l3)) = tpre ++ e :: tpost ->
+  In (EGetStatus a) tpre /\ finished_in tpre a.
+Proof. exact serial_order_pair. Qed.
+Print Assumptions C12_serial_order_pair.
+
+(* non-vacuity.  0 -> 3, 1 -> 4 (task_dep), 2: `doit run 1 0 4 2` examines 4 1 3 0 2: 4 comes before 1
+   (needed by it) and is not examined again; 0, 3, 2 come after 1 and 4 are finished.  The table is
+   acyclic (effective dependencies go to larger numbers) and the hypotheses hold for pre = [1], b = 0 *)
+Definition ex12o (n : name) : option task :=
+  match n with
+  | 0 => Some (Build_task [3] [] [] false false CkRun false OOk [] [] [])
+  | 1 => Some (Build_task [4] [] [] false false CkRun false OOk [] [] [])
+  | 2 | 3 | 4 => Some (Build_task [] [] [] false false CkRun false OOk [] [] [])
+  | _ => None end.
+Ltac name_cases x :=
+  destruct x as [|x]; [|destruct x as [x|x|]; [destruct x as [x|x|]; [destruct x as [x|x|]|destruct x as [x|x|]|]
+                                              |destruct x as [x|x|]; [destruct x as [x|x|]|destruct x as [x|x|]|]|]].
+Lemma ex12o_no_calc x c : ~ eff_calc ex12o x c.
+Proof. intros H. induction H as [c H|c c' _ IH _]; [|exact IH]. name_cases x; simpl in H; tauto. Qed.
+Lemma ex12o_static x y : eff_dep ex12o x y -> (x = 0 /\ y = 3) \/ (x = 1 /\ y = 4).
+Proof.
+  intros [H|c H _]; [|exfalso; exact (ex12o_no_calc x c H)].
+  unfold static_deps, get_task in H. name_cases x; simpl in H; intuition lia.
+Qed.
+Example C12_serial_order_nonvacuous :
+  (forall k, ~ reach ex12o k k) /\ ~ needed ex12o [1] 0 /\ ~ needed ex12o [1] 3 /\ needed ex12o [1] 4 /\
+  fst (run_serial ex12o (fun _ _ => 0) (fun _ => 0) false false 100 ([1] ++ [0; 4; 2])) =
+    [EGetStatus 4; EExecute 4; ESave 4; ESuccess 4; EGetStatus 1; EExecute 1; ESave 1; ESuccess 1] ++ EGetStatus 3 ::
+    [EExecute 3; ESave 3; ESuccess 3; EGetStatus 0; EExecute 0; ESave 0; ESuccess 0;
+     EGetStatus 2; EExecute 2; ESave 2; ESuccess 2; EClose].
+Proof.
+  assert (Hcl : forall x, ~ needed ex12o [1] x \/ x = 1 \/ x = 4).
+  { intros x. destruct (N.eq_dec x 1) as [->|H1]; auto. destruct (N.eq_dec x 4) as [->|H4]; auto. left.
+    intros (p & [<-|[]] & [E|Hr]); [congruence|].
+    assert (S : x = 1 \/ x = 4).
+    { apply (reach_closed ex12o (fun z => z = 1 \/ z = 4)) with (x := 1); auto.
+      intros a b Ha Hab. destruct (ex12o_static a b Hab) as [[-> ->]|[-> ->]]; [destruct Ha; discriminate|auto]. }
+    destruct S; contradiction. }
+  split; [|split; [|split; [|split]]].
+  - apply (ranked_acyclic ex12o (fun x => x)). intros x y H. destruct (ex12o_static x y H) as [[-> ->]|[-> ->]]; reflexivity.
+  - destruct (Hcl 0) as [H|[H|H]]; [exact H|discriminate|discriminate].
+  - destruct (Hcl 3) as [H|[H|H]]; [exact H|discriminate|discriminate].
+  - exists 1. split; [left; reflexivity|]. right. apply re_step. apply ed_static. vm_compute. auto.
+  - vm_compute. reflexivity.
+Qed.
+
+(* the condition is about everything listed up to a, not about a alone: `doit run 0 1 2` with 0 -> 2:
+   2 is examined before 1 although 1 is listed first and does not need it *)
+Definition ex12p (n : name) : option task :=
+  match n with
+  | 0 => Some (Build_task [2] [] [] false false CkRun false OOk [] [] [])
+  | 1 | 2 => Some (Build_task [] [] [] false false CkRun false OOk [] [] [])
+  | _ => None end.
+Example C12_serial_order_earlier_needs :
+  fst (run_serial ex12p (fun _ _ => 0) (fun _ => 0) false false 100 [0; 1; 2]) =
+  [EGetStatus 2; EExecute 2; ESave 2; ESuccess 2; EGetStatus 0; EExecute 0; ESave 0; ESuccess 0;
+   EGetStatus 1; EExecute 1; ESave 1; ESuccess 1; EClose].
+Proof. vm_compute. reflexivity. Qed.
+
+(* over a cyclic table the order statement is false: 0 -> 2, 3;  2 -> 3;  3 -> 2 (the two nodes are created
+   by 0, neither finds the other among its ancestors); `doit run 0 1`: 0, 2, 3 wait for each other, the
+   dispatcher takes 1 from tasks_to_run and runs it, then reports the dead-lock (exit code 3); 0 is never
+   examined although it is listed first and 1 is not needed by it *)
+Definition ex12c (n : name) : option task :=
+  match n with
+  | 0 => Some (Build_task [2; 3] [] [] false false CkRun false OOk [] [] [])
+  | 1 => Some (Build_task [] [] [] false false CkRun false OOk [] [] [])
+  | 2 => Some (Build_task [3] [] [] false false CkRun false OOk [] [] [])
+  | 3 => Some (Build_task [2] [] [] false false CkRun false OOk [] [] [])
+  | _ => None end.
+Lemma ex12c_no_calc x c : ~ eff_calc ex12c x c.
+Proof. intros H. induction H as [c H|c c' _ IH _]; [|exact IH]. name_cases x; simpl in H; tauto. Qed.
+Theorem C12_serial_order_needs_acyclic :
+  exists tasks pre post b tpre tpost,
+    ~ needed tasks pre b /\
+    run_serial tasks (fun _ _ => 0) (fun _ => 0) false false 100 (pre ++ post) = (tpre ++ EGetStatus b :: tpost, 3) /\
+    ~ all_done pre tpre /\ (forall a, In a pre -> ~ In (EGetStatus a) (tpre ++ EGetStatus b :: tpost)).
+Proof.
+  exists ex12c, [0], [1], 1, [], [EExecute 1; ESave 1; ESuccess 1; EClose; EHoldError].
+  split; [|split; [vm_compute; reflexivity|split]].
+  - intros (p & [<-|[]] & [E|Hr]); [discriminate|].
+    assert (S : 1 <> 1); [|congruence].
+    apply (reach_closed ex12c (fun z => z <> 1)) with (x := 0); [|discriminate|exact Hr].
+    intros a b Ha [H|c H _]; [|exfalso; exact (ex12c_no_calc a c H)].
+    unfold static_deps, get_task in H. name_cases a; simpl in H; intuition lia.
+  - intros H. destruct (H 0 (or_introl eq_refl)) as [[] _].
+  - intros a [<-|[]] Hin. simpl in Hin. intuition discriminate.
+Qed.
+Print Assumptions C12_serial_order_needs_acyclic.
